@@ -414,3 +414,18 @@ def oracle_C15(rec):
 
 
 ORACLES = {"C03": oracle_C03, "C04": oracle_C04, "C16": oracle_C16, "C15": oracle_C15}
+
+
+def shrink_candidates(rec):
+    """smaller cases to try when minimising a failing record: one individual less, a smaller quota"""
+    c = case_from_record(rec)
+    n = len(c["F"])
+    ns = c["n_survive"]
+    for i in range(n):
+        if n <= 1:
+            break
+        keep = [j for j in range(n) if j != i]
+        yield dict(c, F=c["F"][keep], G=c["G"][keep], H=c["H"][keep],
+                   n_survive=None if ns is None else max(1, min(ns, n - 1)))
+    if ns is not None and ns > 1:
+        yield dict(c, n_survive=ns - 1)
